@@ -31,7 +31,7 @@ TRUSTED = [
     "oracle parameters of the model answered by the real libraries: pathspec, Pygments get_lexer_for_filename, and the real lex + scan_file for the measurements of each file",
 ]
 ASSUMPTIONS = [
-    "the working directory is the codebase root; arguments have no `..` components",
+    "the working directory is the codebase root; `.` / `..` components of a relative FILE argument are collapsed lexically before the model and the oracle see it (the trees have no directory symlinks); directory arguments have none",
     "directories passed to check have no hidden component of their own; absolute *file* paths are outside the property (Appendix A) - the model covers both, the direct oracle does not judge them",
     "the tree is a snapshot of a real directory (unique non-empty names without '/', no directory symlinks; symbolic links to files are files of their own) and does not change during the run",
 ]
@@ -110,20 +110,53 @@ FIXED = [
 ]
 
 
-def ways(snap, rnd=None):
+def spellings(comps, dirs, rnd=None):
+    """other spellings of the relative path of one file (round 7): `./x`, `a/./x`, and a detour `d/../` at every level
+    through every directory that exists there - the file's own ancestors, their siblings, excluded and hidden ones
+    (the tree has no directory symlinks, so the spellings name the same file). With `rnd`: for 60 % of the files ONE spelling
+    (mostly a detour); without: all of them."""
+    comps = [str(c) for c in comps]
+    kids = {}
+    for d in dirs:
+        if d:
+            kids.setdefault(tuple(d[:-1]), []).append(d[-1])
+    dots = [comps[:i] + ["."] + comps[i:] for i in range(1, len(comps))]
+    detours = [comps[:i] + [s, ".."] + comps[i:] for i in range(len(comps)) for s in sorted(kids.get(tuple(comps[:i]), []))]
+    double = [comps[:i] + [s, t, "..", ".."] + comps[i:] for i in range(len(comps)) for s in sorted(kids.get(tuple(comps[:i]), []))
+              for t in sorted(kids.get(tuple(comps[:i] + [s]), []))]
+    if rnd is not None:
+        if rnd.random() >= 0.6:
+            return []
+        pool = rnd.choice([detours, detours, detours, detours, double, dots, [["."] + comps]]) or detours or [["."] + comps]
+        return [rnd.choice(pool)]
+    return [["."] + comps] + dots + detours + double
+
+
+def arg_of(w, root):
+    """the argument text of one way element [kind, components(, spelling)]"""
+    kind, comps = w[0], w[1]
+    if kind in (0, 2):
+        return "/".join(w[2] if len(w) > 2 else comps) if comps else "."
+    return os.path.join(root, *comps)
+
+
+def ways(snap, rnd=None, all_spellings=False):
     """ways of calling check = lists of arguments [kind, components] (kind 0 relative file,
     1 absolute file, 2 relative directory, 3 absolute directory): every file by its relative and
     by its absolute path, every directory relatively and absolutely, and one call with several
-    arguments"""
+    arguments; [0, components, spelling]: a relative file path WRITTEN with `.` / `..` components"""
     out = []
+    dirs = sr.all_dirs(snap)
     for comps, _ in sr.all_files(snap):
         out.append([[0, list(comps)]])
         out.append([[1, list(comps)]])
+        for sp in spellings(comps, dirs, None if all_spellings or rnd is None else rnd):
+            out.append([[0, list(comps), sp]])
     for d in sr.all_dirs(snap):
         out.append([[2, list(d)]])
         out.append([[3, list(d)]])
     if rnd is not None and len(out) >= 2:
-        out.append([list(a[0]) for a in rnd.sample(out, min(len(out), rnd.choice([2, 3])))])
+        out.append([list(a[0]) for a in rnd.sample(out, min(len(out), rnd.choice([2, 3])))])      # (may contain spelled file arguments)
     return out
 
 
@@ -176,7 +209,7 @@ def observe(case, only=None, rnd=None):
         def sens(way, sub=None, ex=excl_set):
             """the way names a symbolic link by a relative path and the REAL exclusion list treats the link's own
             path and its target differently (counted only; such calls are compared and judged like all others)"""
-            for kind, comps in way:
+            for kind, comps in [w[:2] for w in way]:
                 full = tuple(([sub] if sub else []) + list(comps))
                 t = links.get(full) if kind == 0 else None
                 if t is None:
@@ -188,13 +221,13 @@ def observe(case, only=None, rnd=None):
                 if (tuple(comps) in ex) != tex:
                     return True
             return False
-        for way in (only if only is not None else ways(snap, rnd)):
-            args = [("/".join(comps) if comps else ".") if kind in (0, 2) else os.path.join(T.root, *comps)
-                    for kind, comps in way]
+        for way in (only if only is not None else ways(snap, rnd, case.get("_all_spellings", False))):
+            args = [arg_of(w, T.root) for w in way]
             real = sr.run_check(args)
-            real["read"] = [canon(p, T.root) for p in real["read"]]
-            real["listed"] = [[canon(l[0], T.root)] + list(l[1:]) for l in real["listed"]]
-            line = "checksel 0 %d %s %s" % (len(way), " ".join("%d %s" % (kind, sr.enc_path(comps)) for kind, comps in way), tail)
+            spelled = any(len(w) > 2 for w in way)       # `.` / `..` in an argument: what check prints / reads is collapsed lexically
+            real["read"] = [canon(p, T.root, (), spelled) for p in real["read"]]
+            real["listed"] = [[canon(l[0], T.root, (), spelled)] + list(l[1:]) for l in real["listed"]]
+            line = "checksel 0 %d %s %s" % (len(way), " ".join("%d %s" % (w[0], sr.enc_path(w[1])) for w in way), tail)
             runs.append((way, real, line, [], sens(way)))
         # outside the property (model comparison only): the working directory BELOW the root, so
         # that some arguments lie outside it (`relative_to` raises ValueError, no exclusion test)
@@ -236,7 +269,7 @@ def agreement(case, way, real, table):
     keys = table.get(SCAN_KEYS)
     if keys is None or len(way) != 1 or way[0][0] not in (0, 2, 3) or real["error"]:
         return []
-    kind, comps = way[0]
+    kind, comps = way[0][:2]
     if kind != 0 and sr.spec_hidden(comps):
         return []
     keys = set(keys)
@@ -261,10 +294,13 @@ def agreement(case, way, real, table):
     return bad
 
 
-def canon(p, root, cwd=()):
+def canon(p, root, cwd=(), collapse=False):
     """a path as printed / as handed to _read_file -> root-relative with '/'"""
     if os.path.isabs(p):
         return os.path.relpath(p, root).replace(os.sep, "/")
+    if collapse:
+        import posixpath
+        p = posixpath.normpath(p.replace(os.sep, "/"))
     return "/".join(list(cwd) + p.replace(os.sep, "/").split("/"))
 
 
@@ -303,7 +339,7 @@ def link_status_differs(case, way):
     Such calls are JUDGED like all others - a link is a file of its own, named by ITS path (defect F26: `check` used to
     test the exclusions on the resolved target); the function only counts how many of them a run contains."""
     links = sr.all_links(sr.tree_from_json(case["tree"]))
-    for kind, comps in way:
+    for kind, comps in [w[:2] for w in way]:
         t = links.get(tuple(comps)) if kind == 0 else None
         if t is None:
             continue
@@ -319,7 +355,7 @@ def expected(case, way, table):
     file, exit code) or None when the way is outside the property (hidden directory argument)"""
     if len(way) != 1 or way[0][0] == 1 or way[0][0] >= 10:
         return None     # several arguments / an absolute file path / working directory below the root: model comparison only
-    kind, comps = way[0]
+    kind, comps = way[0][:2]
     tree = sr.tree_from_json(case["tree"])
     if kind != 0 and sr.spec_hidden(comps):
         return None
@@ -375,7 +411,7 @@ def oracle(case, way, real, table):
 
 
 def run_cases(cases, rnd):
-    dis, fails, stats = [], [], {"runs": 0, "kinds": {0: 0, 1: 0, 2: 0, 3: 0, "several": 0, "cwd_below_root": 0}, "judged_by_oracle": 0, "listed_lines": 0,
+    dis, fails, stats = [], [], {"runs": 0, "kinds": {0: 0, 1: 0, 2: 0, 3: 0, "several": 0, "cwd_below_root": 0, "spelled": 0}, "judged_by_oracle": 0, "listed_lines": 0,
                                  "named_excluded_skipped": 0, "named_hidden_checked": 0, "gt30": 0, "gt60": 0}
     nontrivial = set()
     for c in cases:
@@ -406,7 +442,12 @@ def run_cases(cases, rnd):
                                                           "files_checked": real["files_checked"], "code": real["code"], "error": real["error"]},
                               "required": bad})
             stats["runs"] += 1
-            stats["kinds"]["cwd_below_root" if way[0][0] >= 10 else way[0][0] if len(way) == 1 else "several"] += 1
+            stats["kinds"]["cwd_below_root" if way[0][0] >= 10 else "several" if len(way) != 1 else "spelled" if len(way[0]) > 2 else way[0][0]] += 1
+            if len(way) == 1 and len(way[0]) > 2 and ".." in way[0][2]:
+                through = [way[0][2][j - 1] for j in range(1, len(way[0][2])) if way[0][2][j] == ".." and way[0][2][j - 1] != ".."]
+                stats["spelled_through_hidden"] = stats.get("spelled_through_hidden", 0) + (1 if any(t.startswith(".") for t in through) else 0)
+                stats["spelled_through_excluded_directory"] = stats.get("spelled_through_excluded_directory", 0) + (
+                    1 if any(sr.spec_excluded([t, "x"], c["patterns"]) for t in through) else 0)
             stats["judged_by_oracle"] += 1 if expected(c, way, table) is not None else 0
             stats["listed_lines"] += len(real["listed"])
             stats["gt30"] += sum(1 for l in real["listed"] if 30 < l[3] <= 60)
@@ -424,7 +465,7 @@ def run_cases(cases, rnd):
 def correspond(ctx):
     rnd = ctx.rng("trees")
     n = ctx.pick(115, 2500)
-    cases = [dict(c) for c in FIXED] + [gen_case(rnd) for _ in range(n)]
+    cases = [dict(c, _all_spellings=True) for c in FIXED] + [gen_case(rnd) for _ in range(n)]
     re_ = ctx.rng("environment")
     spy, sjs = sr.source_for(".py", [31, 61]).decode(), sr.source_for(".js", [61]).decode()
     small = {"tree": ["D", "root", [["F", "big.py", spy], ["D", "src", [["F", "big.js", sjs], ["D", "lib", [["F", "deep.py", spy]]]]]]],
@@ -438,14 +479,14 @@ def correspond(ctx):
     stats["environment_hidden_ancestor"] = sum(1 for c in cases if any(a.startswith(".") for a in (c.get("env") or {}).get("above", [])))
     stats["environment_git_checkout_above"] = sum(1 for c in cases if any("/.git" in "/" + f for f in (c.get("env") or {}).get("files", {})))
     stats["whole_file_function_ladder"] = {"line_counts": boundary_ns(ctx.thorough), "endings": ["final newline", "none", "CR LF"]}
-    stats["kinds"] = {"relative file": stats["kinds"][0], "absolute file (model only)": stats["kinds"][1],
+    stats["kinds"] = {"relative file": stats["kinds"][0], "relative file written with . / .. components": stats["kinds"]["spelled"], "absolute file (model only)": stats["kinds"][1],
                       "relative directory": stats["kinds"][2], "absolute directory": stats["kinds"][3],
                       "several arguments (model only)": stats["kinds"]["several"],
                       "working directory below the root (model only)": stats["kinds"]["cwd_below_root"]}
     stats["names_with_control_characters_dropped"] = sr.DROPPED["names_with_control_characters"]
     return {
         "evaluations": stats["runs"], "distinct_nontrivial": len(nontrivial),
-        "rule": "%d random trees + %d fixed (generator of C11; functions of 3..75 lines incl. 30/31/60/61; Latin-1, malformed and empty files; a third of the trees with 1-3 symbolic links to files inside the tree - also in hidden / excluded folders - or outside it: a link is a file of its own for scan and for check, named by ITS path - also when it is reached by a relative file path and its target lies in an excluded folder or outside the root (defect F26, fixed; regression tree in FIXED)) x patterns of the 6 gitignore classes via option/.codelimit.yml/.gitignore; per tree: check on every file by relative path (and by absolute path, model comparison only), on every directory (root `.` and all sub-directories; hidden directories for the model comparison only) relatively and absolutely, one call with 2-3 arguments (model only), and ~6 calls from a working directory below the root incl. arguments outside it (model only); non-trivial = distinct (tree, patterns, way) with at least one listed function; the trees carry %d nested .gitignore files (lines drawn from the names beneath them), %d files whose language follows from a Pygments extension / whole-name pattern outside the classic pool (*.h, *.hh, *.mjs, *.pyi, BUILD.bazel, SConscript, ...) and %d paths with non-ASCII (NFC / NFD twin) or shell/JSON-awkward names; names with control characters (< U+0020; %d drawn and dropped) are not used here because check's listing is compared as PRINTED (rich expands TAB for the terminal: interpretation decision, Appendix A) - C11 keeps them for the exact key comparison; every judged call is ALSO judged by agreement alone: a non-hidden file below the argument is analysed by check iff scan_path(\".\") analyses it" % (n, len(FIXED), stats.get("nested_gitignore_files", 0), stats.get("names_by_pygments_pool", 0), stats.get("non_ascii_paths", 0), stats["names_with_control_characters_dropped"]) + "; round 6: %d trees sit in a generated ENVIRONMENT (1-3 directories above the root with hidden / built-in-excluded / plain names, %d with a hidden ancestor; %d below a git checkout's `.git` + .gitignore whose lines name files of the tree): the surroundings of the root never matter; one ladder tree of files that are ONE function of n lines (n = the thresholds' neighbours 15/16, 29..32, 59..62 + source-integer rungs) x (final newline / none / CR LF) x language, and a share of all generated files of that shape" % (stats["with_environment"], stats["environment_hidden_ancestor"], stats["environment_git_checkout_above"]),
+        "rule": "%d random trees + %d fixed (generator of C11; functions of 3..75 lines incl. 30/31/60/61; Latin-1, malformed and empty files; a third of the trees with 1-3 symbolic links to files inside the tree - also in hidden / excluded folders - or outside it: a link is a file of its own for scan and for check, named by ITS path - also when it is reached by a relative file path and its target lies in an excluded folder or outside the root (defect F26, fixed; regression tree in FIXED)) x patterns of the 6 gitignore classes via option/.codelimit.yml/.gitignore; per tree: check on every file by relative path (and by absolute path, model comparison only), on every directory (root `.` and all sub-directories; hidden directories for the model comparison only) relatively and absolutely, one call with 2-3 arguments (model only), and ~6 calls from a working directory below the root incl. arguments outside it (model only); non-trivial = distinct (tree, patterns, way) with at least one listed function; the trees carry %d nested .gitignore files (lines drawn from the names beneath them), %d files whose language follows from a Pygments extension / whole-name pattern outside the classic pool (*.h, *.hh, *.mjs, *.pyi, BUILD.bazel, SConscript, ...) and %d paths with non-ASCII (NFC / NFD twin) or shell/JSON-awkward names; names with control characters (< U+0020; %d drawn and dropped) are not used here because check's listing is compared as PRINTED (rich expands TAB for the terminal: interpretation decision, Appendix A) - C11 keeps them for the exact key comparison; every judged call is ALSO judged by agreement alone: a non-hidden file below the argument is analysed by check iff scan_path(\".\") analyses it" % (n, len(FIXED), stats.get("nested_gitignore_files", 0), stats.get("names_by_pygments_pool", 0), stats.get("non_ascii_paths", 0), stats["names_with_control_characters_dropped"]) + "; round 6: %d trees sit in a generated ENVIRONMENT (1-3 directories above the root with hidden / built-in-excluded / plain names, %d with a hidden ancestor; %d below a git checkout's `.git` + .gitignore whose lines name files of the tree): the surroundings of the root never matter; one ladder tree of files that are ONE function of n lines (n = the thresholds' neighbours 15/16, 29..32, 59..62 + source-integer rungs) x (final newline / none / CR LF) x language, and a share of all generated files of that shape" % (stats["with_environment"], stats["environment_hidden_ancestor"], stats["environment_git_checkout_above"]) + "; round 7: every file is also named by OTHER SPELLINGS of its relative path (%d calls): `./x`, `a/./x`, and detours `d/../` (and `d/e/../../`) at every level through the directories that exist there - the file's ancestors, their siblings, %d through a hidden and %d through an excluded directory (all spellings on the fixed trees, one drawn spelling for 60 percent of the files of the random ones); the model and the oracle judge them as the collapsed path (no directory symlinks: lexical = physical)" % (stats["kinds"]["relative file written with . / .. components"], stats.get("spelled_through_hidden", 0), stats.get("spelled_through_excluded_directory", 0)),
         "samples": [], "exhaustive": False, "distribution": stats,
         "disagreements": dis[:50], "oracle_failures": sorted(fails, key=lambda f: len(json.dumps(f["input"], default=str)))[:50],
     }
@@ -460,7 +501,7 @@ def search(ctx, hints):
     cases += [gen_case(rnd) for _ in range(ctx.pick(60, 400))]
     fails = []
     for c in cases:
-        runs, table, scan_err = observe(c)
+        runs, table, scan_err = observe(c, None, rnd)       # (with `rnd`: one drawn spelling per file instead of all of them)
         for run in runs:
             way, real = run[0], run[1]
             bad = oracle(c, way, real, table)
@@ -485,8 +526,8 @@ def replay(payload):
     for run in runs:
         w, real = run[0], run[1]
         bad = oracle(c, w, real, table)
-        print("check %s, patterns %s" % (", ".join("%s %s" % (["relative file", "absolute file", "relative directory", "absolute directory"][k],
-                                                              "/".join(p) or ".") for k, p in w), c["patterns"]))
+        print("check %s, patterns %s" % (", ".join("%s %s" % (["relative file", "absolute file", "relative directory", "absolute directory"][x[0] % 10],
+                                                              "/".join(x[2] if len(x) > 2 else x[1]) or ".") for x in w), c["patterns"]))
         print("analysed: %s" % real["read"])
         print("listed:   %s" % real["listed"])
         print("violated: %s" % (bad or "nothing"))
